@@ -12,6 +12,9 @@ pub mod c09;
 pub mod c11;
 pub mod c14;
 pub mod c15;
+pub mod c16;
+pub mod c17;
+pub mod c18;
 
 pub fn configs(prop: &str, tier: Tier) -> Option<Vec<Box<dyn Config>>> {
     Some(match prop {
@@ -27,6 +30,9 @@ pub fn configs(prop: &str, tier: Tier) -> Option<Vec<Box<dyn Config>>> {
         "C13" => c08::configs_c13(tier),
         "C14" => c14::configs(tier),
         "C15" => c15::configs(tier),
+        "C16" => c16::configs(tier),
+        "C17" => c17::configs(tier),
+        "C18" => c18::configs(tier),
         "C09" => c09::configs_c09(tier),
         "C10" => c09::configs_c10(tier),
         _ => return None,
